@@ -4,7 +4,7 @@
    cc9466f. *)
 From Coq Require Import List NArith Bool.
 Import ListNotations.
-From L4 Require Import Common.Str Model.EnvExpand Proofs.EnvExpandSpec Proofs.EnvExpand Proofs.EnvExpandOld.
+From L4 Require Import Common.Str Model.EnvExpand Proofs.EnvExpandSpec Proofs.EnvExpand Proofs.EnvExpandOld Proofs.EnvExpandTwice.
 Local Open Scope N_scope.
 
 (* THE PROPERTY, for every path string and every environment (values may contain anything,
@@ -80,6 +80,18 @@ Theorem C19_old_expand_is_one_pass :
     old_expand ua env p = Ok (expand_spec ua env p).
 Proof. exact old_expand_is_one_pass. Qed.
 Print Assumptions C19_old_expand_is_one_pass.
+
+(* ONE pass means one: applying the expansion again to its own result is another function, also for
+   variable values free of '$' - a component that expanded a declared path when the document was
+   read and again when the file is opened would create the file elsewhere ("xvb-vb" instead of
+   "x$ENV{B}-vb" for the path x$$ENV{A}-$ENV{B} with A = "ENV{B}", B = "vb"). *)
+Theorem C19_expanding_twice_is_not_expanding :
+  exists ua env p,
+    values_dollar_free env /\
+    expand ua env p = Ok [120;36;69;78;86;123;66;125;45;118;98] /\
+    expand_twice ua env p = Ok [120;118;98;45;118;98].
+Proof. exact twice_is_not_once. Qed.
+Print Assumptions C19_expanding_twice_is_not_expanding.
 
 (* Concrete instances: the regression witness under the current code; a path with a non-ASCII
    literal, a set variable whose value holds '$' and a whole reference, an unset variable, a
